@@ -13,6 +13,7 @@ import json
 import os
 import shutil
 import tempfile
+import warnings
 from fractions import Fraction
 
 from harness.common import fakeproc
@@ -73,6 +74,18 @@ FLAGS = [b"rd", b"wr", b"ex", b"sh", b"mr", b"mw", b"me", b"ms", b"gd", b"pf", b
          b"dc", b"de", b"ac", b"nr", b"ht", b"sf", b"ar", b"wf", b"dd", b"sd", b"mm", b"hg", b"nh", b"mg", b"um", b"uw"]
 MEMTYPES_BAD = ["", "RSS", "foo", "rss ", "addr", "path", "private_dirty", "Rss"]
 
+# call modes (goal: a method must answer the same whichever way it is reached)
+MODES = ["plain", "fresh", "oneshot", "warm", "as_dict", "iter", "twice"]
+FINDING_STALE = "C13-percent-stale-total"
+# "world B": what the files are overwritten with inside a warm oneshot() block, after the block-cached
+# source has been read — a re-read would be visible in every figure
+B_STATM = b"11 22 33 44 55 66 77\n"
+B_SMAPS = (b"00001000-00002000 rw-p 00000000 00:00 0 \nSize:                555 kB\nRss:                 111 kB\n"
+           b"Pss:                 222 kB\nPrivate_Clean:       333 kB\nPrivate_Dirty:         1 kB\nSwap:                444 kB\n")
+MEMINFO_KEYS = ["MemAvailable", "Buffers", "Cached", "SwapCached", "Active", "Inactive", "Active(anon)", "Inactive(anon)",
+                "Active(file)", "Inactive(file)", "SwapTotal", "SwapFree", "Dirty", "Shmem", "Slab", "SReclaimable",
+                "SUnreclaim", "Hugepagesize", "DirectMap4k"]
+
 
 # ------------------------------------------------------------------------------ generators
 
@@ -123,6 +136,7 @@ def gen_case(rng, family, has_rollup_default):
     n = {"empty": 0, "many": rng.randrange(20, 61), "single": 1}.get(family, rng.randrange(1, 9))
     probe = {}
     ms = []
+    zero_idx = set(j for j in range(len(keys)) if rng.random() < 0.4)
     lo = rng.choice([0x400000, 0x55d0a3f7b000, 0x7f0000000000, 0x1000])
     pool = list(COMMON_PATHS)
     if family in ("adversarial", "deleted", "trailing"):
@@ -152,7 +166,15 @@ def gen_case(rng, family, has_rollup_default):
         ks = keys
         if family == "nonuniform" and i > 0:
             ks = [k for k in keys if rng.random() < 0.7] or keys[:1]
+        if family == "nonuniform_ok":
+            # keys that are 0 in every mapping may be omitted at will (never stale); also: later mappings may ADD keys
+            ks = [k for j, k in enumerate(keys) if j not in zero_idx or rng.random() < 0.5] or keys[:1]
         ms.append(gen_mapping(rng, ks, style, path, deleted, flags_on, lo))
+        if family == "nonuniform_ok":
+            names = [k for k, _ in keys]
+            for e in ms[-1]["kv"]:
+                if names.index(bytes.fromhex(e[0]).decode()) in zero_idx:
+                    e[1] = 0
         lo = ms[-1]["hi"] + rng.choice([0, 0, 4096, 2**21, 2**30])
     # the stripped-name forms are what psutil asks the file system about
     for k in list(probe):
@@ -179,10 +201,76 @@ def gen_case(rng, family, has_rollup_default):
     statm = [gen_val(rng, rng.choice(["small", "mid", "huge", "mixed"])) for _ in range(7)]
     if rng.random() < 0.7:
         statm[4] = statm[6] = 0
-    return {"op": "case", "family": family, "ms": ms, "statm": statm,
+    case = {"op": "case", "family": family, "ms": ms, "statm": statm,
             "pagesize": 0, "zombie": (rng.random() < 0.5) if n == 0 else (rng.random() < 0.05),
             "hasRollup": has_rollup, "rollup": mode,
             "probe": [[k.hex(), v] for k, v in sorted(probe.items())], "pct": pct}
+    case["modes"] = gen_modes(rng, case)
+    if rng.random() < 0.35:
+        case["hist"], case["histModes"] = gen_hist(rng)
+    return case
+
+
+def mode_ok(key, mode, memtype=None):
+    """as_dict(attrs=[name]) calls the method without arguments: memory_maps() is grouped, memory_percent() is rss"""
+    if mode != "as_dict":
+        return True
+    return key in ("info", "full", "grouped") or (key == "pct" and memtype == "rss")
+
+
+def pick_mode(rng, key, memtype=None):
+    m = rng.choice(MODES)
+    return m if mode_ok(key, m, memtype) else rng.choice(["plain", "oneshot", "warm"])
+
+
+def gen_modes(rng, case):
+    return {"info": pick_mode(rng, "info"), "full": pick_mode(rng, "full"), "maps": pick_mode(rng, "maps"),
+            "grouped": pick_mode(rng, "grouped"), "pct": [pick_mode(rng, "pct", q["memtype"]) for q in case["pct"]],
+            "warmups": rng.sample(["name", "ppid", "cpu_times", "status", "memory_info", "create_time"], rng.randrange(0, 4))}
+
+
+def gen_meminfo(rng, total_kb=None):
+    """records of one /proc/meminfo (MemTotal and MemFree first, as the kernel prints them)"""
+    if total_kb is None:
+        total_kb = rng.choice([0, 1, 4, 1024, 2**20, 16 * 2**20, 8_000_000, 2**43 + 1, rng.randrange(1, 2**36)])
+    kv = [["MemTotal", total_kb, True], ["MemFree", rng.randrange(0, total_kb + 1), True]]
+    for k in MEMINFO_KEYS:
+        if rng.random() < 0.7:
+            kv.append([k, rng.choice([0, rng.randrange(0, total_kb + 1), rng.randrange(0, 10**7)]), True])
+    if rng.random() < 0.5:
+        kv += [["HugePages_Total", rng.randrange(0, 99999), False], ["HugePages_Free", 0, False]]
+    if rng.random() < 0.15:
+        head, tail = kv[:2], kv[2:]
+        rng.shuffle(tail)
+        kv = tail[:len(tail) // 2] + head + tail[len(tail) // 2:]
+    return [[k.encode().hex(), v, kb] for k, v, kb in kv]
+
+
+def gen_hist(rng):
+    """a history over psutil._TOTAL_PHYMEM: meminfo rewrites (the machine's total changes or not),
+    virtual_memory() calls, memory_percent(t) calls in random call modes"""
+    steps, modes = [{"op": "meminfo", "kv": gen_meminfo(rng)}], []
+    changing = rng.random() < 0.5
+    for _ in range(rng.randrange(2, 8)):
+        r = rng.random()
+        if r < 0.25:
+            if changing:
+                steps.append({"op": "meminfo", "kv": gen_meminfo(rng)})
+            else:      # other lines change, the total does not
+                steps.append({"op": "meminfo", "kv": gen_meminfo(rng, total_kb=steps[0]["kv"][0][1])})
+        elif r < 0.32:
+            bad = rng.choice([b"MemTotal:       16 kB\n\nMemFree: 1 kB\n", b"MemTotal: x kB\nMemFree: 1 kB\n", b"MemTotal:\nMemFree: 1 kB\n",
+                              b"MemTotal: 5 kB\n", b"MemFree: 5 kB\n", b"", b"MemTotal: 7 kB\nMemFree: 1 kB\nMemTotal: 9 kB\n",
+                              b"MemTotal: 7 kB\nMemFree: 1 kB"])
+            steps.append({"op": "meminfoRaw", "data": bad.hex()})
+        elif r < 0.5:
+            steps.append({"op": "vm"})
+        else:
+            mt = rng.choice(PFULL_NAMES) if rng.random() < 0.9 else rng.choice(MEMTYPES_BAD)
+            steps.append({"op": "pct", "memtype": mt})
+    for st in steps:
+        modes.append(pick_mode(rng, "pct", st.get("memtype")) if st["op"] == "pct" else None)
+    return steps, modes
 
 
 def mutate_raw(rng, smaps, statm, rollup):
@@ -264,6 +352,8 @@ class Impl:
         self.pagesize = self.lx.PAGESIZE
         self.orig_exists = self.lx.path_exists_strict
         self.orig_open = self.lx.open_binary
+        self.used_modes = []
+        self.world_changes = 0
         self.fp.write("stat", "cpu  1 2 3 4 5 6 7 8 9 10\ncpu0 1 2 3 4 5 6 7 8 9 10\nbtime 1700000000\n")
 
     def close(self):
@@ -273,8 +363,9 @@ class Impl:
         self.ps._TOTAL_PHYMEM = None
         self.fp.close()
 
-    def run(self, case, files, real_fs=False):
-        """case: the driver line; files: dict of bytes. Returns the canonical observables."""
+    def run(self, case, files, real_fs=False, hist_files=None):
+        """case: the driver line; files: dict of bytes; hist_files: per hist step the meminfo bytes (or None).
+        Returns the canonical observables."""
         ps, lx, fp = self.ps, self.lx, self.fp
         fakeproc.reset_psutil_state(ps)
         pid = PID
@@ -302,28 +393,145 @@ class Impl:
         lx.open_binary = open_binary
         lx.HAS_PROC_SMAPS_ROLLUP = bool(case["hasRollup"])
         out = {}
+        modes = case.get("modes") or {}
+        self.used_modes = []
+        SENT = object()
+        world_a = {"statm": files["statm"], "smaps": files["smaps"]}
+
+        def from_iter():
+            o = fakeproc.outcome(lambda: [q for q in ps.process_iter() if q.pid == pid])
+            if o["kind"] != "ok":
+                return None, o
+            if len(o["value"]) != 1:
+                return None, {"kind": "exc", "exc": "NotYieldedByProcessIter(%d)" % len(o["value"])}
+            return o["value"][0], None
+
+        def call(p, key, name, args, kwargs, mode, memtype=None):
+            """one observable in one call mode; returns fakeproc.outcome-shaped dict"""
+            if not mode_ok(key, mode, memtype):
+                mode = "plain"
+            self.used_modes.append(mode)
+            if mode == "plain":
+                return fakeproc.outcome(getattr(p, name), *args, **kwargs)
+            if mode == "fresh":
+                o = fakeproc.outcome(ps.Process, pid)
+                if o["kind"] != "ok":
+                    return o
+                return fakeproc.outcome(getattr(o["value"], name), *args, **kwargs)
+            if mode == "iter":
+                q, err = from_iter()
+                if q is None:
+                    return err
+                return fakeproc.outcome(getattr(q, name), *args, **kwargs)
+            if mode == "twice":
+                r1 = fakeproc.outcome(getattr(p, name), *args, **kwargs)
+                r2 = fakeproc.outcome(getattr(p, name), *args, **kwargs)
+                if _plain(r1) != _plain(r2):
+                    return {"kind": "exc", "exc": "SecondCallDiffers", "first": repr(_plain(r1))[:300], "second": repr(_plain(r2))[:300]}
+                return r2
+            if mode == "as_dict":
+                r = fakeproc.outcome(p.as_dict, attrs=[name], ad_value=SENT)
+                if r["kind"] != "ok":
+                    return r
+                d = r["value"]
+                if list(d) != [name]:
+                    return {"kind": "exc", "exc": "AsDictKeys%r" % (sorted(d),)}
+                if d[name] is SENT:
+                    return {"kind": "exc", "exc": "ad_value"}
+                return {"kind": "ok", "value": d[name]}
+            if mode == "oneshot":
+                def f():
+                    with p.oneshot():
+                        return getattr(p, name)(*args, **kwargs)
+                return fakeproc.outcome(f)
+            # warm: other methods first (stat / statm / smaps get block-cached), then the world changes for the
+            # block-cached source of this method: the answer must still be that of the first read (C16)
+            changed = []
+
+            def f():
+                with p.oneshot():
+                    for w in modes.get("warmups", []):
+                        fakeproc.outcome(getattr(p, w))
+                    if key == "info" or (key == "pct" and memtype in PMEM_NAMES):
+                        if fakeproc.outcome(p.memory_info)["kind"] == "ok":       # front-end memoised for the block
+                            fp.write("%d/statm" % pid, B_STATM)
+                            changed.append("statm")
+                    elif key in ("maps", "grouped", "full", "pct"):
+                        # _read_smaps_file is memoised for the block; statm / smaps_rollup are NOT (left alone)
+                        if fakeproc.outcome(p.memory_maps, grouped=bool(len(modes.get("warmups", [])) % 2))["kind"] == "ok":
+                            fp.write("%d/smaps" % pid, B_SMAPS)
+                            changed.append("smaps")
+                    return getattr(p, name)(*args, **kwargs)
+            try:
+                return fakeproc.outcome(f)
+            finally:
+                for k in changed:
+                    fp.write("%d/%s" % (pid, k), world_a[k])
+                if changed:
+                    self.world_changes += 1
+
         try:
             o = fakeproc.outcome(ps.Process, pid)
             if o["kind"] != "ok":
                 return {"ctor": _exc(o)}
             p = o["value"]
-            out["info"] = _nums(fakeproc.outcome(p.memory_info), PMEM_NAMES)
-            out["full"] = _nums(fakeproc.outcome(p.memory_full_info), PFULL_NAMES)
-            out["maps"] = _rows(fakeproc.outcome(p.memory_maps, grouped=False), EXT_NAMES, 3)
-            out["grouped"] = _rows(fakeproc.outcome(p.memory_maps, grouped=True), EXT_NAMES[2:], 1)
+            out["info"] = _nums(call(p, "info", "memory_info", (), {}, modes.get("info", "plain")), PMEM_NAMES)
+            out["full"] = _nums(call(p, "full", "memory_full_info", (), {}, modes.get("full", "plain")), PFULL_NAMES)
+            out["maps"] = _rows(call(p, "maps", "memory_maps", (), {"grouped": False}, modes.get("maps", "plain")), EXT_NAMES, 3)
+            gm = modes.get("grouped", "plain")
+            out["grouped"] = _rows(call(p, "grouped", "memory_maps", (), {} if gm == "as_dict" else {"grouped": True}, gm),
+                                   EXT_NAMES[2:], 1)
             pct = []
-            for q in case["pct"]:
+            pm = modes.get("pct") or []
+            for i, q in enumerate(case["pct"]):
                 ps._TOTAL_PHYMEM = q["cached"]
                 fp.write("meminfo", MEMINFO % (q["vmTotal"] // 1024))
-                r = fakeproc.outcome(p.memory_percent, q["memtype"])
+                m = pm[i] if i < len(pm) else "plain"
+                m = m if mode_ok("pct", m, q["memtype"]) else "plain"
+                r = call(p, "pct", "memory_percent", () if m == "as_dict" else (q["memtype"],), {}, m, q["memtype"])
                 pct.append({"ok": r["value"]} if r["kind"] == "ok" else _exc(r))
             out["pct"] = pct
+            if case.get("hist"):
+                out["hist"] = self.run_hist(case, hist_files or [], p, call)
         finally:
             ps._TOTAL_PHYMEM = None
             lx.path_exists_strict = self.orig_exists
             lx.open_binary = self.orig_open
             lx.HAS_PROC_SMAPS_ROLLUP = self.flag0
         return out
+
+    def run_hist(self, case, hist_files, p, call):
+        """the module global psutil._TOTAL_PHYMEM over a history (starts empty)"""
+        ps, fp = self.ps, self.fp
+        ps._TOTAL_PHYMEM = None
+        outs = []
+        hm = case.get("histModes") or []
+        for i, st in enumerate(case["hist"]):
+            if st["op"] in ("meminfo", "meminfoRaw"):
+                fp.write("meminfo", hist_files[i])
+                outs.append(None)
+            elif st["op"] == "vm":
+                with warnings.catch_warnings():
+                    warnings.simplefilter("ignore")
+                    r = fakeproc.outcome(ps.virtual_memory)
+                outs.append({"ok": int(r["value"].total)} if r["kind"] == "ok" else _exc(r))
+            else:
+                m = (hm[i] if i < len(hm) else None) or "plain"
+                m = m if mode_ok("pct", m, st["memtype"]) else "plain"
+                with warnings.catch_warnings():
+                    warnings.simplefilter("ignore")
+                    r = call(p, "pct", "memory_percent", () if m == "as_dict" else (st["memtype"],), {}, m, st["memtype"])
+                outs.append({"ok": r["value"]} if r["kind"] == "ok" else _exc(r))
+        return outs
+
+
+def _plain(o):
+    if o["kind"] != "ok":
+        return ("exc", o["exc"])
+    v = o["value"]
+    if isinstance(v, list):
+        return ("ok", [tuple(x) for x in v])
+    return ("ok", tuple(v) if isinstance(v, tuple) else v)
 
 
 def _exc(o):
@@ -376,35 +584,92 @@ def canon_grouped(v):
     return {"ok": sorted(v["ok"])}
 
 
-def compare_case(res, inp, impl, drv_out, finding=None):
-    """Record the first disagreement of a case; return its kind or None."""
+AD_EXCS = ("AccessDenied", "ZombieProcess")
+
+
+def _adnorm(im, ref):
+    """as_dict() turns AccessDenied / ZombieProcess into ad_value: equal to a reference that raises one of them"""
+    if isinstance(im, dict) and im.get("exc") == "ad_value" and isinstance(ref, dict) and ref.get("exc") in AD_EXCS:
+        return ref
+    return im
+
+
+def compare_case(res, inp, impl, drv_out, findings=()):
+    """Record the first disagreement of a case; return its kind or None. Disagreements inside the region of a
+    known finding are recorded with its id and do not count."""
     if "ctor" in impl:
         res.disagree("model", inp, impl, None, None, note="psutil.Process(pid) raised on the fake procfs")
         return "model"
     model = drv_out["model"]
     spec = drv_out.get("spec")
+    modes = inp.get("modes") or {}
     for key in ("info", "full", "maps", "grouped"):
-        im, mo = impl[key], model[key]
+        mo = model[key]
         sp = spec.get(key) if spec else None
+        md = " [mode %s]" % modes.get(key, "plain")
+        im = _adnorm(impl[key], sp if sp is not None else mo)
         if key == "grouped":
             if sp is not None and canon_grouped(im) != canon_grouped(sp):
-                res.disagree("spec", inp, {key: im}, {key: mo}, {key: sp}, note=key + ": implementation differs from the specification")
+                res.disagree("spec", inp, {key: im}, {key: mo}, {key: sp}, note=key + ": implementation differs from the specification" + md)
                 return "spec"
         elif sp is not None and im != sp:
-            res.disagree("spec", inp, {key: im}, {key: mo}, {key: sp}, note=key + ": implementation differs from the specification")
+            res.disagree("spec", inp, {key: im}, {key: mo}, {key: sp}, note=key + ": implementation differs from the specification" + md)
             return "spec"
         if im != mo:
-            res.disagree("model", inp, {key: im}, {key: mo}, {key: sp}, note=key + ": implementation differs from the Lean model")
+            res.disagree("model", inp, {key: im}, {key: mo}, {key: sp}, note=key + ": implementation differs from the Lean model" + md)
             return "model"
+    pm = modes.get("pct") or []
     for i, (im, mo) in enumerate(zip(impl["pct"], model["pct"])):
         sp = spec["pct"][i] if spec else None
+        md = " [mode %s]" % (pm[i] if i < len(pm) else "plain")
+        im = _adnorm(im, sp if sp is not None else mo)
         if not pct_equal(im, sp):
             res.disagree("spec", inp, {"pct": im, "i": i}, {"pct": mo}, {"pct": sp},
-                         note="memory_percent(%r): implementation differs from 100*field/total" % inp["pct"][i]["memtype"])
+                         note="memory_percent(%r): implementation differs from 100*field/total%s" % (inp["pct"][i]["memtype"], md))
             return "spec"
         if not pct_equal(im, mo):
-            res.disagree("model", inp, {"pct": im, "i": i}, {"pct": mo}, {"pct": sp}, note="memory_percent: implementation differs from the Lean model")
+            res.disagree("model", inp, {"pct": im, "i": i}, {"pct": mo}, {"pct": sp}, note="memory_percent: implementation differs from the Lean model" + md)
             return "model"
+    return compare_hist(res, inp, impl, drv_out, findings)
+
+
+def _hist_equal(st, im, ref):
+    if ref is None:
+        return True
+    if st["op"] == "pct":
+        return pct_equal(_adnorm(im, ref), ref)
+    return im == ref
+
+
+def compare_hist(res, inp, impl, drv_out, findings=()):
+    """history over _TOTAL_PHYMEM: model = the code as it is (cache), spec = percent of the CURRENT total"""
+    if not inp.get("hist"):
+        return None
+    known = any(f.get("id") == FINDING_STALE for f in findings)
+    hm = inp.get("histModes") or []
+    for i, (st, im, d) in enumerate(zip(inp["hist"], impl.get("hist") or [], drv_out.get("hist") or [])):
+        if st["op"] in ("meminfo", "meminfoRaw"):
+            continue
+        mo, sp = d["model"], d["spec"]
+        md = " [mode %s]" % ((hm[i] if i < len(hm) else None) or "plain")
+        what = "virtual_memory().total" if st["op"] == "vm" else "memory_percent(%r)" % st["memtype"]
+        if not _hist_equal(st, im, mo):
+            res.disagree("model", inp, {"hist": im, "i": i}, {"hist": mo}, {"hist": sp},
+                         note="history step %d, %s: implementation differs from the Lean model%s" % (i, what, md))
+            return "model"
+        if not _hist_equal(st, im, sp):
+            if d.get("stale") and st["op"] == "pct":
+                # region of the known finding: the cached total is not the kernel's current one
+                res.known_seen[FINDING_STALE] = res.known_seen.get(FINDING_STALE, 0) + 1
+                res.disagree("spec", inp, {"hist": im, "i": i}, {"hist": mo}, {"hist": sp},
+                             note="history step %d, %s: relative to the cached total, not to the total /proc/meminfo reports now%s" % (i, what, md),
+                             finding=FINDING_STALE if known else None)
+                if not known:
+                    return "spec"
+                continue
+            res.disagree("spec", inp, {"hist": im, "i": i}, {"hist": mo}, {"hist": sp},
+                         note="history step %d, %s: implementation differs from 100*field/(MemTotal*1024)%s" % (i, what, md))
+            return "spec"
     return None
 
 
@@ -427,11 +692,17 @@ def run_cases(ctx, impl, cases, res, tag_stats=True):
         else:
             files = {"smaps": bytes.fromhex(c["smaps"]), "statm": bytes.fromhex(c["statm"]),
                      "rollup": bytes.fromhex(c["rollupData"])}
-        im = impl.run(c, files, real_fs=c.get("realfs", False))
-        kind = compare_case(res, c, im, o)
+        im = impl.run(c, files, real_fs=c.get("realfs", False), hist_files=_hist_files(o))
+        kind = compare_case(res, c, im, o, ctx.findings)
         if tag_stats:
             record(res, c, o, im, kind)
+            for m in impl.used_modes:
+                res.count("mode:" + m)
     return len(cases)
+
+
+def _hist_files(o):
+    return [bytes.fromhex(d["file"]) if d.get("op") == "meminfo" else None for d in (o.get("hist") or [])]
 
 
 def record(res, c, o, im, kind):
@@ -453,6 +724,14 @@ def record(res, c, o, im, kind):
             res.count("feature:no_vmflags")
         if any(e[1] >= 10**7 for m in c["ms"] for e in m["kv"]):
             res.count("feature:value>=1e7kB")
+        if n:
+            res.count("keys:" + ("uniform" if o.get("uniform") else "nonuniform-never-stale" if o.get("nostale") else "nonuniform-stale"))
+    for st, d, v in zip(c.get("hist") or [], o.get("hist") or [], im.get("hist") or []):
+        res.count("hist:" + st["op"])
+        if st["op"] == "pct":
+            res.count("hist:pct:" + ("stale-cache" if d.get("stale") else "exc:" + v["exc"] if v and "exc" in v else "ok"))
+        if st["op"] in ("pct", "vm") and d.get("spec") is None:
+            res.count("hist:outside-spec-domain")
     for k in ("info", "full", "maps", "grouped"):
         v = im.get(k, {})
         if "exc" in v:
@@ -470,7 +749,7 @@ def _key(c):
 
 
 FAMILIES = ["basic", "basic", "repeat", "adversarial", "optional", "deleted", "single", "empty", "nonuniform",
-            "trailing", "adversarial", "repeat"]
+            "trailing", "adversarial", "repeat", "nonuniform_ok"]
 
 
 def corpus(impl):
@@ -499,8 +778,35 @@ def corpus(impl):
         case([m(b"/x", kv=[("Rss", 1), ("Private_Hugetlb", 99_999_999), ("Pss", 2**40)])]),
         case([m(b"/x", flags=None), m(b"/x", flags=None, lo=0x500000)], mode="enoent"),
         case([m(b"/x")], mode="esrch"), case([m(b"/x")], has=False),
+        # a key that is 0 may be omitted by later mappings (never stale); later mappings may add keys
+        case([m(b"/x", kv=[("Rss", 0), ("Pss", 1)]), m(b"/y", kv=[("Pss", 2), ("Swap", 3)], lo=0x500000),
+              m(b"/z", kv=[("Rss", 9), ("Swap", 0)], lo=0x600000), m(None, kv=[("Rss", 0)], lo=0x700000)], fam="nonuniform_ok"),
     ]
+    out.append(stale_witness())
+    h = stale_witness()
+    h["hist"] = h["hist"][:2] + [{"op": "meminfo", "kv": mi(4)}, {"op": "pct", "memtype": "uss"}, {"op": "vm"},
+                                 {"op": "meminfoRaw", "data": b"MemFree: 1 kB\n".hex()}, {"op": "pct", "memtype": "pss"},
+                                 {"op": "vm"}, {"op": "meminfo", "kv": mi(0)}, {"op": "vm"}, {"op": "pct", "memtype": "rss"},
+                                 {"op": "pct", "memtype": "nope"}]
+    h["histModes"] = [None] * len(h["hist"])
+    out.append(h)
     return out
+
+
+def mi(total_kb, free_kb=1):
+    return [[b"MemTotal".hex(), total_kb, True], [b"MemFree".hex(), free_kb, True], [b"MemAvailable".hex(), free_kb, True]]
+
+
+def stale_witness():
+    """memory_percent(); the machine's total doubles; memory_percent() again (witness of C13-percent-stale-total)"""
+    one = {"lo": 0x400000, "hi": 0x401000, "r": True, "w": False, "x": True, "s": False, "off": 0, "maj": 254, "min": 0, "ino": 1,
+           "path": b"/x".hex(), "deleted": False, "kv": [[k.encode().hex(), v, True] for k, v in (("Rss", 8), ("Pss", 4), ("Private_Dirty", 5), ("Swap", 7))],
+           "flags": None}
+    return {"op": "case", "family": "hist", "ms": [one], "statm": [660, 351, 325, 5, 0, 123, 0], "pagesize": 0, "zombie": False,
+            "hasRollup": True, "rollup": "data", "probe": [], "pct": [],
+            "hist": [{"op": "meminfo", "kv": mi(4 * 2**20)}, {"op": "pct", "memtype": "rss"}, {"op": "meminfo", "kv": mi(8 * 2**20)},
+                     {"op": "pct", "memtype": "rss"}],
+            "histModes": [None, "plain", None, "plain"]}
 
 
 def exhaustive_cases(impl):
@@ -532,6 +838,24 @@ def exhaustive_cases(impl):
                     if empty:
                         c["ms"] = []
                     out.append(c)
+    # every call mode x every observable (all ten memtypes + an unknown one), on three processes; and every
+    # mode on a memory_percent() call that follows a change of the total
+    for mode in MODES:
+        for variant in ("data", "enoent-fallback", "empty-zombie"):
+            c = json.loads(json.dumps(base))
+            c["family"] = "exhaustive-modes"
+            if variant == "enoent-fallback":
+                c["rollup"] = "enoent"
+            if variant == "empty-zombie":
+                c.update({"ms": [], "zombie": True, "rollup": "esrch"})
+            names = PFULL_NAMES + ["bogus"]
+            c["pct"] = [{"memtype": n, "cached": None, "vmTotal": 2**30} for n in names]
+            c["modes"] = {"info": mode, "full": mode, "maps": mode, "grouped": mode, "pct": [mode] * len(names),
+                          "warmups": ["name", "memory_info", "cpu_times"]}
+            c["hist"] = [{"op": "meminfo", "kv": mi(2**20)}, {"op": "pct", "memtype": "rss"}, {"op": "pct", "memtype": "uss"},
+                         {"op": "meminfo", "kv": mi(2**21)}, {"op": "pct", "memtype": "rss"}, {"op": "vm"}, {"op": "pct", "memtype": "swap"}]
+            c["histModes"] = [None, mode, mode, None, mode, None, mode]
+            out.append(c)
     return out
 
 
@@ -548,7 +872,8 @@ def raw_cases(ctx, impl, n):
         what, smaps, statm, rollup = mutate_raw(rng, f["smaps"], f["statm"], f["rollup"])
         raws.append({"op": "raw", "family": "raw:" + what, "smaps": smaps.hex(), "statm": statm.hex(), "rollupData": rollup.hex(),
                      "pagesize": impl.pagesize, "zombie": c["zombie"], "hasRollup": c["hasRollup"],
-                     "rollup": c["rollup"] if c["rollup"] != "data" or rollup else "data", "probe": c["probe"], "pct": c["pct"][:1]})
+                     "rollup": c["rollup"] if c["rollup"] != "data" or rollup else "data", "probe": c["probe"], "pct": c["pct"][:1],
+                     "modes": dict(c["modes"], pct=c["modes"]["pct"][:1])})
     return raws, len(seeds)
 
 
@@ -621,12 +946,38 @@ def validate_renderers(ctx, res):
             cur["kv"].append([first[:-1].hex(), int(t[1]), len(t) > 2 and t[2] == b"kB"])
     line = {"op": "case", "ms": ms, "statm": [int(x) for x in statm.split()], "pagesize": 4096, "zombie": False,
             "hasRollup": True, "rollup": "data", "probe": [], "pct": []}
+    meminfo = None
+    try:
+        with open("/proc/meminfo", "rb") as f:
+            meminfo = f.read()
+        kv = []
+        for l in meminfo.split(b"\n"):
+            if l:
+                t = l.split()
+                kv.append([t[0][:-1].hex(), int(t[1]), len(t) > 2 and t[2] == b"kB"])
+        line["hist"] = [{"op": "meminfo", "kv": kv}, {"op": "vm"}]
+    except (OSError, ValueError, IndexError) as e:
+        res.notes.append("meminfo renderer validation skipped: %s" % e)
     o = ctx.driver().batch([line])[0]
     if "bad" in o:
         raise InfraError("renderer validation: driver rejected the live smaps: %s" % o)
     ok_smaps = bytes.fromhex(o["files"]["smaps"]) == real
     ok_statm = bytes.fromhex(o["files"]["statm"]) == statm
-    res.extra["renderer_validation"] = {"live_mappings": len(ms), "smaps_bytes_equal": ok_smaps, "statm_bytes_equal": ok_statm}
+    res.extra["renderer_validation"] = {"live_mappings": len(ms), "smaps_bytes_equal": ok_smaps, "statm_bytes_equal": ok_statm,
+                                        # hypothesis of the round-trip theorems, checked against the running kernel: every mapping of
+                                        # one read prints the same key list (=> C13_uniform_keys_never_stale applies)
+                                        "live_smaps_uniform_keys": o.get("uniform"), "live_smaps_never_stale": o.get("nostale"),
+                                        "live_key_list": [bytes.fromhex(e[0]).decode() for e in ms[0]["kv"]] if ms else []}
+    if not o.get("uniform"):
+        res.notes.append("ASSUMPTION VIOLATED on this kernel: the mappings of /proc/self/smaps do not all print the same key list "
+                         "(memory_maps' never-cleared dict is then wrong exactly when C13_maps_right_iff_no_stale_key says; never-stale here: %s)"
+                         % o.get("nostale"))
+    if meminfo is not None and o.get("hist"):
+        ok_mi = bytes.fromhex(o["hist"][0]["file"]) == meminfo
+        res.extra["renderer_validation"]["meminfo_bytes_equal"] = ok_mi
+        res.extra["renderer_validation"]["meminfo_total_model"] = o["hist"][1]["model"]
+        if not ok_mi:
+            res.notes.append("meminfo renderer validation FAILED: rendered %r vs kernel %r" % (bytes.fromhex(o["hist"][0]["file"])[:200], meminfo[:200]))
     if not (ok_smaps and ok_statm):
         a, b = bytes.fromhex(o["files"]["smaps"]), real
         i = next((k for k in range(min(len(a), len(b))) if a[k] != b[k]), min(len(a), len(b)))
@@ -649,8 +1000,12 @@ def correspond(ctx, res):
         res.rule = ("one case = one simulated process (0..60 mappings + statm + roll-up mode + 3 memory_percent calls) "
                     "driven through the real front-end methods; families: basic, repeated paths, adversarial paths, optional "
                     "lines, deleted files, single, empty (live/zombie), non-uniform keys, names ending in blanks, many "
-                    "mappings, malformed raw content, real-file-system probes; non-trivial = at least one mapping or an "
-                    "exception observable; distinct = distinct driver lines")
+                    "mappings, malformed raw content, real-file-system probes, key lists that differ between mappings (stale and "
+                    "never-stale); every method call is made in a call mode drawn per observable from {plain, fresh object, inside "
+                    "oneshot(), inside a WARM oneshot() block after the block-cached source was read and then overwritten, "
+                    "as_dict(attrs=[name]), the object yielded by process_iter(), second call on the same object}; 35 % of the cases "
+                    "also run a history over psutil._TOTAL_PHYMEM (meminfo rewrites / virtual_memory() / memory_percent(t)); "
+                    "non-trivial = at least one mapping or an exception observable; distinct = distinct driver lines")
         res.extra["import_time_flags"] = {"HAS_PROC_SMAPS": impl.has_smaps, "HAS_PROC_SMAPS_ROLLUP": impl.flag0,
                                           "other_variant_reached_by": "setting psutil._pslinux.HAS_PROC_SMAPS_ROLLUP per case (read at call time)",
                                           "PAGESIZE": impl.pagesize}
@@ -675,8 +1030,11 @@ def correspond(ctx, res):
         lines += nl
         lines += run_cases(ctx, impl, raws, res)
         res.exhaustive = ("%d enumerated cases: all 18 memtypes (10 valid, 8 invalid) x 6 total-memory configurations; all 16 "
-                          "permission strings; hasRollup x {data, enoent, esrch} x zombie x {one mapping, empty}; the random "
-                          "families are samples" % len(ex))
+                          "permission strings; hasRollup x {data, enoent, esrch} x zombie x {one mapping, empty}; all 7 call modes x "
+                          "{memory_info, memory_full_info, memory_maps(False), memory_maps(True), memory_percent of all 10 memtypes + "
+                          "an unknown one, memory_percent after a change of the total} x {roll-up, ENOENT fall-back, empty zombie}; "
+                          "the random families are samples" % len(ex))
+        res.extra["world_changes_inside_warm_blocks"] = impl.world_changes
         res.extra["driver_lines"] = lines
     finally:
         impl.close()
@@ -690,7 +1048,7 @@ def search(ctx, res, broken):
 
 # ------------------------------------------------------------------------------ replay / shrink
 
-def _violates(ctx, impl, case, drv=None):
+def _violates(ctx, impl, case, drv=None, findings=None):
     """Run one case; return (kind, disagreement) of the first disagreement."""
     from harness.common.runner import Result
     r = Result()
@@ -715,14 +1073,17 @@ def _violates(ctx, impl, case, drv=None):
                     open(p, "wb").close()
             except OSError:
                 pass
-    im = impl.run(c, files, real_fs=c.get("realfs", False))
-    kind = compare_case(r, c, im, o)
-    return kind, (r.disagreements[0] if r.disagreements else None)
+    im = impl.run(c, files, real_fs=c.get("realfs", False), hist_files=_hist_files(o))
+    kind = compare_case(r, c, im, o, ctx.findings if findings is None else findings)
+    dis = [d for d in r.disagreements if not d.get("finding")]
+    return kind, (dis[0] if dis else None)
 
 
 def shrink(ctx, d):
     case = d["input"]
     if case.get("op") != "case" or not case.get("ms"):
+        return d
+    if case.get("modes") and len(case["modes"].get("pct") or []) != len(case.get("pct") or []):
         return d
     impl = Impl(ctx)
     drv = ctx.driver()
@@ -748,9 +1109,26 @@ def shrink(ctx, d):
         for i in range(len(small["pct"])):
             cand = [small["pct"][i]]
             c2 = dict(small, pct=cand)
+            if small.get("modes"):
+                pm = small["modes"].get("pct") or []
+                c2["modes"] = dict(small["modes"], pct=[pm[i] if i < len(pm) else "plain"])
             if _violates(ctx, impl, c2, drv)[0] == "spec":
                 small = c2
                 break
+        # no history / plain calls, when the failure does not need them
+        if small.get("hist"):
+            c2 = {k: v for k, v in small.items() if k not in ("hist", "histModes")}
+            if _violates(ctx, impl, c2, drv)[0] == "spec":
+                small = c2
+        if small.get("modes"):
+            c2 = {k: v for k, v in small.items() if k != "modes"}
+            if _violates(ctx, impl, c2, drv)[0] == "spec":
+                small = c2
+            else:
+                for key in ("info", "full", "maps", "grouped"):
+                    c2 = dict(small, modes=dict(small["modes"], **{key: "plain"}))
+                    if _violates(ctx, impl, c2, drv)[0] == "spec":
+                        small = c2
         k, dis = _violates(ctx, impl, small, drv)
         if k == "spec" and dis:
             return dict(d, input=small, impl=dis["impl"], model=dis["model"], spec=dis["spec"], note=dis["note"] + " (shrunk)")
@@ -772,5 +1150,29 @@ def replay(ctx, rp, res):
             print("  impl: %s" % json.dumps(dis["impl"])[:600])
             print("  spec: %s" % json.dumps(dis["spec"])[:600])
         return kind == "spec"
+    finally:
+        impl.close()
+
+
+def check_finding(ctx, fnd):
+    """replay the witness history: 'reproduces' while a memory_percent() call answers relative to a stale total"""
+    w = fnd.get("witness") or {}
+    if fnd.get("id") != FINDING_STALE or "hist" not in w:
+        return "unknown"
+    from harness.common.runner import Result
+    impl = Impl(ctx)
+    try:
+        c = json.loads(json.dumps(w))
+        c["pagesize"] = impl.pagesize
+        o = ctx.driver().batch([strip_case(c)])[0]
+        if "bad" in o:
+            return "unknown"
+        files = {k: bytes.fromhex(v) for k, v in o["files"].items()}
+        im = impl.run(c, files, hist_files=_hist_files(o))
+        r = Result()
+        compare_case(r, c, im, o, [fnd])
+        if any(d.get("finding") == FINDING_STALE for d in r.disagreements):
+            return "reproduces"
+        return "gone"
     finally:
         impl.close()
